@@ -28,6 +28,7 @@ func init() {
 			ruleMapSlot(c)
 			ruleScalarStore(c)
 			ruleSetLen(c)
+			ruleCountLoop(c)
 			ruleStructUntouched(c)
 			ruleSharedStateInventory(c)
 		},
